@@ -8,7 +8,7 @@ from .. import tlc
 from ..common import Report, pmap
 from ..e2e import base_scenario, directed
 
-FAMILY = r"^files\.(counts_sum|dense_fill|reference|time|records|scalar_is_state|pvars)|^output\.snap"
+FAMILY = r"^files\.(counts_sum|dense_fill|reference|time|time_typed_instance|records|scalar_is_state|pvars)|^output\.snap|^run\.crashed"
 DRIVERS = {"e2e-records": ("harness.e2e", "run_e2e", "LadimTrace", FAMILY),
            "e2e-records-after-restart": ("harness.checks.c08", "restarted_only", "LadimTrace", FAMILY)}
 
@@ -22,6 +22,8 @@ def scenarios(tier, seed):
     for sc in scs:       # longitude / latitude as two more instance variables in a third of the runs (values only where the particle lives)
         if rl.random() < 0.34:
             sc["lonlat_out"] = True
+        if rl.random() < 0.3:          # a time-typed instance variable (a time stamp per release row)
+            sc["stampvar"] = True
         if rl.random() < 0.3:          # a state variable that is not configured for output must not appear in the file
             sc["out_drop"] = rl.sample(["Z", "age", "farm"], rl.choice([1, 1, 2]))
     return scs
